@@ -19,9 +19,11 @@ import (
 	"strings"
 	"sync"
 	"testing"
+	"unsafe"
 
 	"pgregory.net/rapid"
 
+	"verif/harness/internal/guard"
 	"verif/harness/internal/rep"
 )
 
@@ -55,7 +57,26 @@ func register(o *op) {
 	opNames = append(opNames, o.name)
 }
 
+// Operands of the SIMD kernels are placed flush against an inaccessible page (see internal/guard): a kernel that
+// reads or writes past the end of a slice faults, the fault becomes a panic of this variant only, and the
+// comparison reports it. The regions of one request are released when it is done.
+var guardFrees []func()
+
+func guardSlice[T any](n int) []T {
+	var z T
+	mem, free := guard.Alloc(n*int(unsafe.Sizeof(z)), guard.AtEnd)
+	guardFrees = append(guardFrees, free)
+	return unsafe.Slice((*T)(unsafe.Pointer(unsafe.SliceData(mem))), n)
+}
+
 func exec1(r req) (out resp) {
+	defer func() {
+		for _, f := range guardFrees {
+			f()
+		}
+		guardFrees = guardFrees[:0]
+	}()
+	defer guard.PanicOnFault()()
 	defer func() {
 		if p := recover(); p != nil {
 			out = resp{Panic: fmt.Sprint(p)}
